@@ -1,12 +1,29 @@
 (* C01 / C17 (evaluator side): the evaluator model, including every fused node
    type, computes the reference semantics (Spec/RefEval.v) of the node's unfused
-   meaning (Spec/Unfuse.v). *)
+   meaning (Spec/Unfuse.v).
+
+   eval_refines_slice1   every node type except NSliceStep / NSliceStepCurrent /
+                         NCallVar FZip: eval = ref_eval (unfuse n), exactly, for every
+                         root, current value and scope; step-1 slice projections are
+                         included (arrays and strings, no bound on lengths), and so
+                         are merge and not_null (the reference looks at each argument
+                         as soon as it is evaluated, like the model)
+   eval_refines          the same under no_slice (no slice node at all)
+   eval_refines_slice_step, eval_refines_slice_step_current
+                         stepped slice projections, given that the operand is an
+                         array of at most MaxInt elements or a valid UTF-8 string
+                         (step_sliceable); slice_step_invalid_utf8_differs shows the
+                         string condition is needed
+   eval_refines_variadic merge / not_null / zip as an exact equality, given only that
+                         the arguments refine; for zip the argument list is non-empty
+                         and its arrays are below the model's 2^62 row limit (the
+                         PMakeLen guard, which the reference does not have) *)
 From Coq Require Import List ZArith Bool Lia.
 From JM Require Import Base.Outcome Base.Bytes Base.GoInt Base.Utf8 Num.Dec Json.Value
   Model.Ast Model.Parser Model.Compare Model.NumberFns Model.Slice Model.StringFns Model.Array
   Model.Functions Model.Eval
   Spec.SpecSlice Spec.RefAst Spec.RefEval Spec.Unfuse
-  Proofs.SliceSpec Proofs.SliceProofs.
+  Proofs.SliceSpec Proofs.SliceProofs Proofs.Utf8Theory.
 Import ListNotations.
 Open Scope Z_scope.
 
@@ -60,7 +77,8 @@ Proof.
   - destruct y; reflexivity.
   - destruct y; reflexivity.
   - destruct y as [|b|s|n'|l'|m'|t']; cbn [equal spec_equal];
-      destruct (to_decimal (VNum n)); reflexivity.
+      (* both sides first test for two json.Number values with the same valid text *)
+      destruct n; destruct (to_decimal (VNum _)); reflexivity.
   - destruct y as [|b|s|n'|l'|m'|t']; try reflexivity.
     cbn [equal spec_equal]. revert l'.
     induction IH as [|u a Hu _ IHa]; intros [|v c]; try reflexivity.
@@ -300,6 +318,28 @@ Fixpoint no_variadic (n : node) : bool :=
   | _ => true
   end.
 
+(* no call of zip anywhere (merge and not_null are allowed) *)
+Fixpoint no_zip (n : node) : bool :=
+  match n with
+  | NCallVar f args => match f with FZip => false | _ => forallb no_zip args end
+  | NCall1 _ a | NNot a | NNegate a | NAssertNumber a | NFilterCurrent a
+  | NFlatten a | NFlattenAndProjectCurrent a | NIndex a _ | NObjectValues a
+  | NProjectArrayCurrent a | NProjectObjectCurrent a | NPruneArray a
+  | NSelectArraySingleCurrent a | NSelectObjectSingleCurrent _ a
+  | NSlice a _ _ | NSliceStep a _ _ _ => no_zip a
+  | NCall2 _ a b | NCallBy _ a b | NMap a b | NBin _ a b | NAnd a b | NOr a b
+  | NFilter a b | NFilterAndProjectCurrent a b | NFlattenAndProject a b | NPipe a b
+  | NProjectArray a b | NProjectObject a b | NSelectArraySingle a b | NSelectObjectSingle a _ b =>
+    no_zip a && no_zip b
+  | NCall3 _ a b c | NFilterAndProject a b c => no_zip a && no_zip b && no_zip c
+  | NCall4 _ a b c d => no_zip a && no_zip b && no_zip c && no_zip d
+  | NSelectArrayCurrent args => forallb no_zip args
+  | NSelectArray c args => no_zip c && forallb no_zip args
+  | NDefine vars c | NSelectObject c vars => no_zip c && forallb (fun kv => no_zip (snd kv)) vars
+  | NSelectObjectCurrent vars => forallb (fun kv => no_zip (snd kv)) vars
+  | _ => true
+  end.
+
 (* no slice node with an explicit step (step-1 slices inside projections are allowed) *)
 Fixpoint no_step_slice (n : node) : bool :=
   match n with
@@ -342,6 +382,25 @@ Lemma spec_callby f a e :
 Proof. destruct f; reflexivity. Qed.
 Lemma spec_callmap e a : spec_call [109;97;112] [AF e; AV a] = map_array e a.
 Proof. reflexivity. Qed.
+
+(* none of these names is one of the three variadic built-ins, which ref_eval
+   treats first *)
+Definition plain_name (f : bytes) : Prop :=
+  beqb f [110;111;116;95;110;117;108;108] = false /\
+  beqb f [109;101;114;103;101] = false /\
+  beqb f [122;105;112] = false.
+Lemma fn1_plain f : plain_name (fn1_bytes f).
+Proof. destruct f; repeat split; reflexivity. Qed.
+Lemma fn2_plain f : plain_name (fn2_bytes f).
+Proof. destruct f; repeat split; reflexivity. Qed.
+Lemma fn3_plain f : plain_name (fn3_bytes f).
+Proof. destruct f; repeat split; reflexivity. Qed.
+Lemma fn4_plain f : plain_name (fn4_bytes f).
+Proof. destruct f; repeat split; reflexivity. Qed.
+Lemma fnby_plain f : plain_name (fnby_bytes f).
+Proof. destruct f; repeat split; reflexivity. Qed.
+Lemma map_plain : plain_name [109;97;112].
+Proof. repeat split; reflexivity. Qed.
 
 (* ------------------------------------------------------------------ *)
 (* evaluation of keyed lists (let bindings, multi-select hashes)       *)
@@ -542,6 +601,248 @@ Proof.
 Qed.
 
 (* ------------------------------------------------------------------ *)
+(* variadic calls: merge, not_null, zip                                *)
+(* ------------------------------------------------------------------ *)
+
+(* The model and the reference both evaluate and check the arguments one at a
+   time (not_null stops at the first non-null one).  The loops, over any
+   evaluator of arguments: *)
+
+Definition merge_loop {N} (ev : N -> outcome value) : list N -> list (bytes * value) -> outcome value :=
+  fix go l acc :=
+    match l with
+    | [] => Ok (VObj acc)
+    | a :: r =>
+      do x <- ev a;
+      match x with
+      | VObj m => go r (fold_left (fun acc kv => assoc_set (fst kv) (snd kv) acc) m acc)
+      | _ => Err EInvalidType
+      end
+    end.
+
+Definition not_null_loop {N} (ev : N -> outcome value) : list N -> outcome value :=
+  fix go l :=
+    match l with
+    | [] => Ok VNull
+    | a :: r => do x <- ev a; if is_null x then go r else Ok x
+    end.
+
+Definition zip_cols_loop {N} (ev : N -> outcome value) : list N -> outcome (list (list value)) :=
+  fix go l :=
+    match l with
+    | [] => Ok []
+    | a :: r =>
+      do x <- ev a;
+      match x with
+      | VArr c => do cs <- go r; Ok (c :: cs)
+      | _ => Err EInvalidType
+      end
+    end.
+
+(* the reference's loops run over call arguments, which may be expression references *)
+Definition ref_merge_loop (ev : rexpr -> outcome value) : list rarg -> list (bytes * value) -> outcome value :=
+  fix go l acc :=
+    match l with
+    | [] => Ok (VObj acc)
+    | AExpr x :: r =>
+      do v <- ev x;
+      match v with
+      | VObj m => go r (fold_left (fun acc kv => assoc_set (fst kv) (snd kv) acc) m acc)
+      | _ => Err EInvalidType
+      end
+    | ARef _ :: _ => Err EInvalidType
+    end.
+
+Definition ref_not_null_loop (ev : rexpr -> outcome value) : list rarg -> outcome value :=
+  fix go l :=
+    match l with
+    | [] => Ok VNull
+    | AExpr x :: r => do v <- ev x; if not_null v then Ok v else go r
+    | ARef _ :: _ => Err EInvalidType
+    end.
+
+Definition ref_zip_cols_loop (ev : rexpr -> outcome value) : list rarg -> outcome (list (list value)) :=
+  fix go l :=
+    match l with
+    | [] => Ok []
+    | AExpr x :: r =>
+      do v <- ev x;
+      match v with
+      | VArr c => do cs <- go r; Ok (c :: cs)
+      | _ => Err EInvalidType
+      end
+    | ARef _ :: _ => Err EInvalidType
+    end.
+
+(* the model of zip panics above 2^62 rows; arrays of that length do not exist in Go *)
+Definition zip_limit : Z := 4611686018427387904.
+
+Definition zip_count (cols : list (list value)) : Z :=
+  fold_left (fun m c => Z.min m (zlen c)) cols MaxInt.
+
+Section VarEqs.
+Variable root : value.
+
+Lemma eval_NCallVar_merge args cur vars :
+  eval root (NCallVar FMerge args) cur vars = merge_loop (fun a => eval root a cur vars) args [].
+Proof. reflexivity. Qed.
+
+Lemma eval_NCallVar_not_null args cur vars :
+  eval root (NCallVar FNotNull args) cur vars = not_null_loop (fun a => eval root a cur vars) args.
+Proof. reflexivity. Qed.
+
+Lemma eval_NCallVar_zip args cur vars :
+  eval root (NCallVar FZip args) cur vars =
+  do cols <- zip_cols_loop (fun a => eval root a cur vars) args;
+  if zip_count cols >? zip_limit then Panic PMakeLen
+  else Ok (VArr (zip_rows (Z.to_nat (zip_count cols)) 0 cols)).
+Proof. reflexivity. Qed.
+
+Lemma ref_RCall_merge rargs cur vars :
+  ref_eval root (RCall (fnvar_bytes FMerge) rargs) cur vars =
+  ref_merge_loop (fun x => ref_eval root x cur vars) rargs [].
+Proof. reflexivity. Qed.
+
+Lemma ref_RCall_not_null rargs cur vars :
+  ref_eval root (RCall (fnvar_bytes FNotNull) rargs) cur vars =
+  ref_not_null_loop (fun x => ref_eval root x cur vars) rargs.
+Proof. reflexivity. Qed.
+
+Lemma ref_RCall_zip rargs cur vars :
+  ref_eval root (RCall (fnvar_bytes FZip) rargs) cur vars =
+  do cols <- ref_zip_cols_loop (fun x => ref_eval root x cur vars) rargs;
+  Ok (VArr (zip_rows (Z.to_nat (zip_count cols)) 0 cols)).
+Proof. reflexivity. Qed.
+End VarEqs.
+
+(* on a list of plain expression arguments the reference's loops are the generic ones *)
+Lemma ref_merge_loop_map {N} (h : N -> rexpr) ev l : forall acc,
+  ref_merge_loop ev (map (fun x => AExpr (h x)) l) acc = merge_loop (fun a => ev (h a)) l acc.
+Proof.
+  induction l as [|a r IH]; intros acc; [reflexivity|]. cbn [map ref_merge_loop merge_loop].
+  destruct (ev (h a)) as [v| | | |]; try reflexivity. cbn [bind]. destruct v; try reflexivity. apply IH.
+Qed.
+
+Lemma ref_not_null_loop_map {N} (h : N -> rexpr) ev l :
+  ref_not_null_loop ev (map (fun x => AExpr (h x)) l) = not_null_loop (fun a => ev (h a)) l.
+Proof.
+  induction l as [|a r IH]; [reflexivity|]. cbn [map ref_not_null_loop not_null_loop].
+  destruct (ev (h a)) as [v| | | |]; try reflexivity. cbn [bind]. rewrite IH. destruct v; reflexivity.
+Qed.
+
+Lemma ref_zip_cols_loop_map {N} (h : N -> rexpr) ev l :
+  ref_zip_cols_loop ev (map (fun x => AExpr (h x)) l) = zip_cols_loop (fun a => ev (h a)) l.
+Proof.
+  induction l as [|a r IH]; [reflexivity|]. cbn [map ref_zip_cols_loop zip_cols_loop].
+  destruct (ev (h a)) as [v| | | |]; try reflexivity. cbn [bind]. destruct v; try reflexivity.
+  rewrite IH. reflexivity.
+Qed.
+
+(* the generic loops only depend on the evaluator through the listed arguments *)
+Lemma merge_loop_ext {N} (h k : N -> outcome value) l :
+  Forall (fun a => h a = k a) l -> forall acc, merge_loop h l acc = merge_loop k l acc.
+Proof.
+  induction 1 as [|a r Ha _ IH]; intros acc; [reflexivity|]. cbn [merge_loop]. rewrite Ha.
+  destruct (k a) as [v| | | |]; try reflexivity. cbn [bind]. destruct v; try reflexivity. apply IH.
+Qed.
+
+Lemma not_null_loop_ext {N} (h k : N -> outcome value) l :
+  Forall (fun a => h a = k a) l -> not_null_loop h l = not_null_loop k l.
+Proof.
+  induction 1 as [|a r Ha _ IH]; [reflexivity|]. cbn [not_null_loop]. rewrite Ha, IH. reflexivity.
+Qed.
+
+Lemma zip_cols_loop_ext {N} (h k : N -> outcome value) l :
+  Forall (fun a => h a = k a) l -> zip_cols_loop h l = zip_cols_loop k l.
+Proof.
+  induction 1 as [|a r Ha _ IH]; [reflexivity|]. cbn [zip_cols_loop]. rewrite Ha, IH. reflexivity.
+Qed.
+
+(* every column comes from an argument that evaluated to that array *)
+Lemma zip_cols_loop_in {N} (ev : N -> outcome value) l : forall cols,
+  zip_cols_loop ev l = Ok cols ->
+  length cols = length l /\ forall c, In c cols -> exists a, In a l /\ ev a = Ok (VArr c).
+Proof.
+  induction l as [|a r IH]; intros cols E; cbn [zip_cols_loop] in E.
+  - injection E as <-. split; [reflexivity | intros c []].
+  - destruct (ev a) as [v| | | |] eqn:Ea; try discriminate. cbn [bind] in E.
+    destruct v; try discriminate.
+    destruct (zip_cols_loop ev r) as [cs| | | |]; try discriminate. cbn [bind] in E.
+    injection E as <-. destruct (IH cs eq_refl) as [Hlen Hin]. split; [cbn [length]; congruence|].
+    intros c [<-|Hc].
+    + exists a. split; [left; reflexivity | assumption].
+    + destruct (Hin c Hc) as (a' & Ha' & Ea'). exists a'. split; [right|]; assumption.
+Qed.
+
+Lemma fold_min_le (cols : list (list value)) : forall m,
+  fold_left (fun m c => Z.min m (zlen c)) cols m <= m /\
+  forall c, In c cols -> fold_left (fun m c => Z.min m (zlen c)) cols m <= zlen c.
+Proof.
+  induction cols as [|c0 r IH]; intros m; cbn [fold_left]; [split; [lia | intros c []]|].
+  destruct (IH (Z.min m (zlen c0))) as [H1 H2]. split; [lia|].
+  intros c [<-|Hc]; [lia | auto].
+Qed.
+
+Section Variadic.
+Variable root : value.
+Variables (cur : value) (vars : env).
+
+(* merge / not_null / zip at one current value and scope: exact equality, given that
+   the arguments refine there; the side condition is only about zip *)
+Theorem eval_refines_variadic_at f args :
+  Forall (fun a => eval root a cur vars = ref_eval root (unfuse a) cur vars) args ->
+  (f = FZip -> args <> [] /\
+               forall a c, In a args -> eval root a cur vars = Ok (VArr c) -> zlen c <= zip_limit) ->
+  eval root (NCallVar f args) cur vars = ref_eval root (unfuse (NCallVar f args)) cur vars.
+Proof.
+  intros H Hz. cbn [unfuse]. destruct f.
+  - rewrite eval_NCallVar_merge, ref_RCall_merge, ref_merge_loop_map. apply merge_loop_ext, H.
+  - rewrite eval_NCallVar_not_null, ref_RCall_not_null, ref_not_null_loop_map.
+    apply not_null_loop_ext, H.
+  - destruct (Hz eq_refl) as [Hne Hsmall].
+    rewrite eval_NCallVar_zip, ref_RCall_zip, ref_zip_cols_loop_map.
+    rewrite <- (zip_cols_loop_ext _ _ _ H).
+    destruct (zip_cols_loop (fun a => eval root a cur vars) args) as [cols| | | |] eqn:E;
+      try reflexivity. cbn [bind].
+    destruct (zip_cols_loop_in _ _ _ E) as [Hlen Hin].
+    assert (Hc : zip_count cols <= zip_limit).
+    { destruct cols as [|c0 cs].
+      - destruct args; [congruence | discriminate].
+      - destruct (Hin c0 (or_introl eq_refl)) as (a & Ha & Ea).
+        pose proof (Hsmall a c0 Ha Ea).
+        pose proof (proj2 (fold_min_le (c0 :: cs) MaxInt) c0 (or_introl eq_refl)).
+        unfold zip_count. lia. }
+    rewrite (gtb_false _ _ Hc). reflexivity.
+Qed.
+End Variadic.
+
+(* the same with arguments that refine at every current value and scope *)
+Theorem eval_refines_variadic : forall (root : value) (f : fnvar) (args : list node)
+    (cur : value) (vars : env),
+  Forall (fun a => forall cur' vars', eval root a cur' vars' = ref_eval root (unfuse a) cur' vars') args ->
+  (f = FZip -> args <> [] /\
+               forall a c, In a args -> eval root a cur vars = Ok (VArr c) -> zlen c <= zip_limit) ->
+  eval root (NCallVar f args) cur vars = ref_eval root (unfuse (NCallVar f args)) cur vars.
+Proof.
+  intros root f args cur vars H Hz. apply eval_refines_variadic_at; [|exact Hz].
+  eapply Forall_impl; [|exact H]. intros a Ha. apply Ha.
+Qed.
+
+(* consequence (kept from the time when only this direction held): whenever the
+   reference yields a value for a variadic call, the model yields the same value *)
+Theorem eval_refines_variadic_ok : forall (root : value) (f : fnvar) (args : list node)
+    (cur : value) (vars : env) (v : value),
+  Forall (fun a => eval root a cur vars = ref_eval root (unfuse a) cur vars) args ->
+  (f = FZip -> args <> [] /\
+               forall a c, In a args -> eval root a cur vars = Ok (VArr c) -> zlen c <= zip_limit) ->
+  ref_eval root (unfuse (NCallVar f args)) cur vars = Ok v ->
+  eval root (NCallVar f args) cur vars = Ok v.
+Proof.
+  intros root f args cur vars v H1 Hz Hv.
+  rewrite (eval_refines_variadic_at root cur vars f args H1 Hz). exact Hv.
+Qed.
+
+(* ------------------------------------------------------------------ *)
 (* one lemma per node type: the node refines its meaning if its        *)
 (* children do                                                         *)
 (* ------------------------------------------------------------------ *)
@@ -560,31 +861,36 @@ Ltac step H :=
     destruct (ref_eval root e c v); cbn [bind]; try reflexivity
   end.
 
+(* the callee is not a variadic built-in: drop the three name tests of ref_eval *)
+Ltac plain H :=
+  let E1 := fresh in let E2 := fresh in let E3 := fresh in
+  destruct H as (E1 & E2 & E3); rewrite E1, E2, E3; clear E1 E2 E3; cbv iota.
+
 Lemma r_call1 f a : refines a -> refines (NCall1 f a).
 Proof.
-  intros Ha cur vars. cbn [eval unfuse ref_eval]. step Ha. symmetry. apply spec_call1.
+  intros Ha cur vars. cbn [eval unfuse ref_eval]. plain (fn1_plain f). step Ha. symmetry. apply spec_call1.
 Qed.
 
 Lemma r_call2 f a b : refines a -> refines b -> refines (NCall2 f a b).
 Proof.
-  intros Ha Hb cur vars. cbn [eval unfuse ref_eval]. step Ha. step Hb. symmetry. apply spec_call2.
+  intros Ha Hb cur vars. cbn [eval unfuse ref_eval]. plain (fn2_plain f). step Ha. step Hb. symmetry. apply spec_call2.
 Qed.
 
 Lemma r_call3 f a b c : refines a -> refines b -> refines c -> refines (NCall3 f a b c).
 Proof.
-  intros Ha Hb Hc cur vars. cbn [eval unfuse ref_eval]. step Ha. step Hb. step Hc.
+  intros Ha Hb Hc cur vars. cbn [eval unfuse ref_eval]. plain (fn3_plain f). step Ha. step Hb. step Hc.
   symmetry. apply spec_call3.
 Qed.
 
 Lemma r_call4 f a b c d : refines a -> refines b -> refines c -> refines d -> refines (NCall4 f a b c d).
 Proof.
-  intros Ha Hb Hc Hd cur vars. cbn [eval unfuse ref_eval]. step Ha. step Hb. step Hc. step Hd.
+  intros Ha Hb Hc Hd cur vars. cbn [eval unfuse ref_eval]. plain (fn4_plain f). step Ha. step Hb. step Hc. step Hd.
   symmetry. apply spec_call4.
 Qed.
 
 Lemma r_callby f a e : refines a -> refines e -> refines (NCallBy f a e).
 Proof.
-  intros Ha He cur vars. cbn [eval unfuse ref_eval]. step Ha.
+  intros Ha He cur vars. cbn [eval unfuse ref_eval]. plain (fnby_plain f). step Ha.
   rewrite spec_callby.
   destruct f; [apply group_by_ext | apply array_extreme_by_ext | apply array_extreme_by_ext
               | apply sort_array_by_ext]; intros x; apply He.
@@ -592,8 +898,19 @@ Qed.
 
 Lemma r_map e a : refines e -> refines a -> refines (NMap e a).
 Proof.
-  intros He Ha cur vars. cbn [eval unfuse ref_eval]. step Ha.
+  intros He Ha cur vars. cbn [eval unfuse ref_eval]. plain map_plain. step Ha.
   rewrite spec_callmap. apply map_array_ext. intros x; apply He.
+Qed.
+
+(* merge and not_null: no side condition *)
+Lemma r_callvar_merge args : Forall refines args -> refines (NCallVar FMerge args).
+Proof.
+  intros H cur vars. apply eval_refines_variadic; [exact H | discriminate].
+Qed.
+
+Lemma r_callvar_not_null args : Forall refines args -> refines (NCallVar FNotNull args).
+Proof.
+  intros H cur vars. apply eval_refines_variadic; [exact H | discriminate].
 Qed.
 
 Lemma r_bin op l r : refines l -> refines r -> refines (NBin op l r).
@@ -958,18 +1275,19 @@ Qed.
 End Cases.
 
 (* ------------------------------------------------------------------ *)
-(* main theorem (nodes without slices and without variadic calls)      *)
+(* main theorem (nodes without stepped slices and without zip calls;   *)
+(* merge and not_null are covered)                                     *)
 (* ------------------------------------------------------------------ *)
 
 Section Main.
 Variable root : value.
 
 Definition refines_if_plain (n : node) : Prop :=
-  wf_node n = true -> no_slice n = true -> no_variadic n = true -> refines root n.
+  wf_node n = true -> no_step_slice n = true -> no_zip n = true -> refines root n.
 
 Lemma Forall_plain l :
   Forall refines_if_plain l ->
-  forallb wf_node l = true -> forallb no_slice l = true -> forallb no_variadic l = true ->
+  forallb wf_node l = true -> forallb no_step_slice l = true -> forallb no_zip l = true ->
   Forall (refines root) l.
 Proof.
   induction 1 as [|a r Ha _ IH]; intros H1 H2 H3; constructor;
@@ -981,8 +1299,8 @@ Qed.
 Lemma Forall_plain_kv (m : list (bytes * node)) :
   Forall refines_if_plain (map snd m) ->
   forallb (fun kv => wf_node (snd kv)) m = true ->
-  forallb (fun kv => no_slice (snd kv)) m = true ->
-  forallb (fun kv => no_variadic (snd kv)) m = true ->
+  forallb (fun kv => no_step_slice (snd kv)) m = true ->
+  forallb (fun kv => no_zip (snd kv)) m = true ->
   Forall (fun kv => refines root (snd kv)) m.
 Proof.
   induction m as [|[k a] r IH]; intros H H1 H2 H3; constructor;
@@ -991,9 +1309,6 @@ Proof.
     apply andb_prop in H1; apply andb_prop in H2; apply andb_prop in H3;
     destruct H, H1, H2, H3; auto.
 Qed.
-
-Lemma no_slice_not_slice_node n : no_slice n = true -> is_slice_node n = false.
-Proof. destruct n; try reflexivity; discriminate. Qed.
 
 Lemma wf_project_array_noslice l r : is_slice_node l = false ->
   wf_node (NProjectArray l r) = wf_node l && wf_node r.
@@ -1008,16 +1323,33 @@ Ltac inv_forall :=
   end.
 Ltac use_ih :=
   repeat match goal with
-  | H : refines_if_plain ?a, H1 : wf_node ?a = true, H2 : no_slice ?a = true, H3 : no_variadic ?a = true |- _ =>
+  | H : refines_if_plain ?a, H1 : wf_node ?a = true, H2 : no_step_slice ?a = true, H3 : no_zip ?a = true |- _ =>
     specialize (H H1 H2 H3)
   end.
 
+Lemma r_project_array_any l r :
+  refines_if_plain l -> refines_if_plain r ->
+  Forall refines_if_plain (match l with NSlice c _ _ | NSliceStep c _ _ _ => [c] | _ => [] end) ->
+  refines_if_plain (NProjectArray l r).
+Proof.
+  intros Hl Hr Hc Hwf Hns Hnv.
+  cbn [no_step_slice no_zip] in Hns, Hnv. split_andb.
+  destruct (is_slice_node l) eqn:Es.
+  - destruct l; try discriminate; cbn [wf_node no_step_slice no_zip] in *;
+      try discriminate; split_andb; inv_forall; use_ih.
+    + apply r_project_slice; assumption.
+    + apply r_project_slice_current; assumption.
+  - rewrite wf_project_array_noslice in Hwf by assumption. split_andb.
+    apply r_project_array; auto.
+Qed.
+
 Lemma eval_refines_plain : forall n, refines_if_plain n.
 Proof.
-  induction n as [n IH] using node_children_ind. intros Hwf Hns Hnv.
-  destruct n; cbn [children] in IH; cbn [no_slice no_variadic] in Hns, Hnv;
+  induction n as [n IH] using node_children_ind.
+  destruct n; cbn [children] in IH;
+    try (inv_forall; apply r_project_array_any; assumption);
+    intros Hwf Hns Hnv; cbn [no_step_slice no_zip] in Hns, Hnv;
     try discriminate;
-    try (split_andb; rewrite wf_project_array_noslice in Hwf by (apply no_slice_not_slice_node; assumption));
     cbn [wf_node] in Hwf; split_andb; inv_forall; use_ih;
     try (intros cur vars; reflexivity).
   all: eauto using r_call1, r_call2, r_call3, r_call4, r_callby, r_map, r_bin, r_and, r_or, r_not,
@@ -1026,17 +1358,302 @@ Proof.
     r_object_values_current, r_pipe, r_project_array_current, r_project_object,
     r_project_object_current, r_prune, r_prune_current, r_select_array_single,
     r_select_array_single_current, r_select_object_single, r_select_object_single_current.
+  - destruct f; try discriminate; [apply r_callvar_merge | apply r_callvar_not_null];
+      auto using Forall_plain.
   - apply r_define; auto using Forall_plain_kv.
-  - apply r_project_array; auto using no_slice_not_slice_node.
   - apply r_select_array; auto using Forall_plain.
   - apply r_select_array_current; auto using Forall_plain.
   - apply r_select_object; auto using Forall_plain_kv.
   - apply r_select_object_current; auto using Forall_plain_kv.
 Qed.
 
-Theorem eval_refines : forall (n : node) (cur : value) (vars : env),
-  wf_node n = true -> no_slice n = true -> no_variadic n = true ->
+(* every node type except NSliceStep / NSliceStepCurrent / NCallVar FZip *)
+Theorem eval_refines_slice1 : forall (n : node) (cur : value) (vars : env),
+  wf_node n = true -> no_step_slice n = true -> no_zip n = true ->
   eval root n cur vars = ref_eval root (unfuse n) cur vars.
 Proof. intros n cur vars H1 H2 H3. apply eval_refines_plain; assumption. Qed.
 
 End Main.
+
+Lemma forallb_impl {A} (p q : A -> bool) l :
+  Forall (fun a => p a = true -> q a = true) l -> forallb p l = true -> forallb q l = true.
+Proof.
+  induction 1 as [|a r Ha _ IH]; [reflexivity|]. cbn [forallb]. intros H.
+  apply andb_prop in H. destruct H as [H1 H2]. rewrite (Ha H1), (IH H2). reflexivity.
+Qed.
+
+Lemma forallb_impl_kv {K A} (p q : A -> bool) (m : list (K * A)) :
+  Forall (fun a => p a = true -> q a = true) (map snd m) ->
+  forallb (fun kv => p (snd kv)) m = true -> forallb (fun kv => q (snd kv)) m = true.
+Proof.
+  induction m as [|[k a] r IH]; [reflexivity|]. cbn [forallb map snd]. intros HF H.
+  apply Forall_cons_iff in HF. destruct HF as [Ha HF].
+  apply andb_prop in H. destruct H as [H1 H2]. rewrite (Ha H1), (IH HF H2). reflexivity.
+Qed.
+
+Lemma no_slice_no_step_slice : forall n, no_slice n = true -> no_step_slice n = true.
+Proof.
+  induction n as [n IH] using node_children_ind.
+  destruct n; cbn [children] in IH; cbn [no_slice no_step_slice]; intros H; try discriminate;
+    repeat match goal with H : _ && _ = true |- _ => apply andb_prop in H; destruct H end;
+    repeat match goal with
+    | H : Forall _ (_ :: _) |- _ => apply Forall_cons_iff in H; destruct H as [? H]
+    end;
+    repeat match goal with
+    | H : no_slice ?a = true -> _, H1 : no_slice ?a = true |- _ => rewrite (H H1); clear H
+    end;
+    cbn [andb]; try reflexivity;
+    eauto using forallb_impl, forallb_impl_kv.
+Qed.
+
+(* the older, stronger exclusion of every variadic call implies the one used now *)
+Lemma no_variadic_no_zip : forall n, no_variadic n = true -> no_zip n = true.
+Proof.
+  induction n as [n IH] using node_children_ind.
+  destruct n; cbn [children] in IH; cbn [no_variadic no_zip]; intros H; try discriminate;
+    repeat match goal with H : _ && _ = true |- _ => apply andb_prop in H; destruct H end;
+    repeat match goal with
+    | H : Forall _ (_ :: _) |- _ => apply Forall_cons_iff in H; destruct H as [? H]
+    end;
+    repeat match goal with
+    | H : no_variadic ?a = true -> _, H1 : no_variadic ?a = true |- _ => rewrite (H H1); clear H
+    end;
+    cbn [andb]; try reflexivity;
+    eauto using forallb_impl, forallb_impl_kv.
+Qed.
+
+(* the same under the stronger, purely syntactic exclusion of every slice node *)
+Theorem eval_refines : forall (root : value) (n : node) (cur : value) (vars : env),
+  wf_node n = true -> no_slice n = true -> no_zip n = true ->
+  eval root n cur vars = ref_eval root (unfuse n) cur vars.
+Proof.
+  intros root n cur vars H1 H2 H3.
+  apply eval_refines_slice1; auto using no_slice_no_step_slice.
+Qed.
+
+(* ------------------------------------------------------------------ *)
+(* slices with an explicit step                                        *)
+(* ------------------------------------------------------------------ *)
+
+Lemma in_int_range z : in_int z = true -> MinInt <= z <= MaxInt.
+Proof. unfold in_int. intros H. apply andb_prop in H. destruct H as [H1 H2]. lia. Qed.
+
+Lemma slice_step_arr l a b s : zlen l <= MaxInt -> in_int s = true -> s <> 0 ->
+  slice_step (VArr l) a b s = Ok (VArr (spec_slice l VNull (Some a) (Some b) s)).
+Proof.
+  intros HL Hs Hnz. apply in_int_range in Hs.
+  destruct (Z.lt_ge_cases 0 s).
+  - apply slice_step_pos_some; assumption.
+  - apply slice_step_neg_some; [assumption | lia].
+Qed.
+
+Lemma pick_default_prog rs : forall k j step,
+  pick_default rs k j step = map (fun x => nth (Z.to_nat x) rs RuneError) (prog k j step).
+Proof. induction k as [|k IH]; intros j step; [reflexivity|]. cbn [pick_default prog map]. rewrite IH. reflexivity. Qed.
+
+Lemma encode_all_concat cs : encode_all cs = concat (map encode_rune cs).
+Proof. unfold encode_all. apply flat_map_concat_map. Qed.
+
+Lemma nth_map_in_range cs : forall idx,
+  Forall (fun x => 0 <= x < zlen cs) idx ->
+  map (fun x => nth (Z.to_nat x) (map encode_rune cs) []) idx =
+  map encode_rune (map (fun x => nth (Z.to_nat x) cs RuneError) idx).
+Proof.
+  induction 1 as [|x r Hx _ IH]; [reflexivity|]. cbn [map]. rewrite IH. f_equal.
+  rewrite (nth_indep _ [] (encode_rune RuneError)) by (rewrite map_length; unfold zlen in Hx; lia).
+  apply map_nth.
+Qed.
+
+Lemma nth_skipn_plus {A} (d : A) : forall k (l : list A) n, nth n (skipn k l) d = nth (k + n) l d.
+Proof.
+  induction k as [|k IH]; intros l n; [reflexivity|].
+  destruct l as [|x l]; [destruct n; reflexivity|]. cbn [skipn Nat.add nth]. apply IH.
+Qed.
+
+(* reading a reversed list from the back *)
+Lemma nth_skipn_rev {A} (d : A) (l : list A) i k :
+  0 <= k <= i -> i < zlen l ->
+  nth (Z.to_nat k) (skipn (Z.to_nat (zlen l - 1 - i)) (rev l)) d = nth (Z.to_nat (i - k)) l d.
+Proof.
+  unfold zlen. intros Hk Hi.
+  rewrite nth_skipn_plus. rewrite rev_nth by lia. f_equal. lia.
+Qed.
+
+Lemma pick_default_back cs i : forall k j step,
+  Forall (fun x => 0 <= x < i + 1) (prog k j step) -> i < zlen cs ->
+  pick_default (skipn (Z.to_nat (zlen cs - 1 - i)) (rev cs)) k j step =
+  map (fun x => nth (Z.to_nat x) cs RuneError) (prog k (i - j) (- step)).
+Proof.
+  induction k as [|k IH]; intros j step HF Hi; [reflexivity|].
+  cbn [prog] in HF. apply Forall_cons_iff in HF. destruct HF as [Hj HF].
+  cbn [pick_default prog map]. rewrite nth_skipn_rev by lia. f_equal.
+  rewrite IH by assumption. f_equal. f_equal. lia.
+Qed.
+
+Lemma prog_shift : forall k i j step, 
+  prog k (i - j) (- step) = map (fun x => i - x) (prog k j step).
+Proof.
+  induction k as [|k IH]; intros i j step; [reflexivity|]. cbn [prog map]. f_equal.
+  rewrite <- IH. f_equal. lia.
+Qed.
+
+Lemma slice_step_str t a b s :
+  bytes_ok t = true -> valid_utf8 t = true -> rune_count t <= MaxInt -> in_int s = true -> s <> 0 ->
+  slice_step (VStr t) a b s = Ok (VStr (concat (spec_slice (chunks t) [] (Some a) (Some b) s))).
+Proof.
+  intros Hb Hv HL Hs Hnz. apply in_int_range in Hs.
+  apply (valid_utf8_iff t Hb) in Hv. destruct Hv as (cs & Hcs & ->).
+  rewrite rune_count_encode_all in HL by assumption. fold (zlen cs) in HL.
+  unfold slice_step. rewrite runes_encode_all, runes_rev_encode_all, chunks_encode_all by assumption.
+  cbv zeta.
+  unfold spec_slice, spec_slice_indices. rewrite map_length. fold (zlen cs).
+  pose proof (zlen_nonneg cs) as H0.
+  destruct (spec_bounds (zlen cs) (Some a) (Some b) s) as [st e] eqn:Hbd.
+  destruct (Z.lt_ge_cases 0 s) as [Hpos|Hneg].
+  - pose proof (norm_step_pos_spec _ _ _ _ _ _ H0 Hpos Hbd) as Hn.
+    destruct (norm_step (zlen cs) a b s) as [[i n]|].
+    + destruct Hn as (-> & Hs0 & Hse & HeL & c & -> & ->).
+      pose proof (ceilq_spec (e - st) s ltac:(lia) Hpos) as [[Hlo Hhi] [Hn1 Hnc]].
+      set (n := ceilq (e - st) s) in *.
+      rewrite (proj2 (Z.eqb_neq s 0)) by lia.
+      rewrite (gtb_true s 0) by lia.
+      assert (0 <= (n - 1) * s) by (apply Z.mul_nonneg_nonneg; lia).
+      rewrite (walk_count_pos (Z.to_nat n)); try (rewrite ?Z2Nat.id by lia; lia).
+      rewrite pick_default_prog, encode_all_concat, nth_map_in_range; [reflexivity|].
+      apply prog_range. intros _. rewrite Z2Nat.id by lia. lia.
+    + rewrite walk_nil_pos by lia. reflexivity.
+  - assert (Hs' : s < 0) by lia.
+    pose proof (norm_step_neg_spec _ _ _ _ _ _ H0 Hs' Hbd) as Hn.
+    destruct (norm_step (zlen cs) a b s) as [[i n]|].
+    + destruct Hn as (-> & Hes & He1 & HsL & c & -> & ->).
+      assert (exists n, ceilq (st - e) (wrap64 (s * -1)) = n /\ 1 <= n <= st - e /\
+                        st + n * s <= e /\ e < st + (n - 1) * s) as (n & -> & Hn1 & Hhi & Hlo).
+      { destruct (Z.eq_dec s MinInt) as [->|Hne].
+        - rewrite wrap64_neg_MinInt. rewrite ceilq_MinInt by (unfold MinInt, MaxInt in *; lia).
+          exists 1. unfold MinInt, MaxInt in *. repeat split; lia.
+        - rewrite wrap64_id by (unfold MinInt, MaxInt in *; lia).
+          replace (s * -1) with (- s) by lia.
+          pose proof (ceilq_spec (st - e) (- s) ltac:(lia) ltac:(lia)) as [[Hlo Hhi] [Hn1 Hnc]].
+          eexists; split; [reflexivity|]. repeat split; lia. }
+      rewrite (proj2 (Z.eqb_neq s 0)) by lia.
+      rewrite (gtb_false s 0) by lia.
+      assert ((n - 1) * s <= 0) by (apply Z.mul_nonneg_nonpos; lia).
+      rewrite (walk_count_neg (Z.to_nat n)); try (rewrite ?Z2Nat.id by lia; lia).
+      rewrite (pick_default_back cs st).
+      2:{ apply prog_range. intros _. rewrite Z2Nat.id by lia. lia. }
+      2:{ lia. }
+      replace (st - 0) with st by lia. replace (- - s) with s by lia.
+      rewrite encode_all_concat, nth_map_in_range; [reflexivity|].
+      apply prog_range. intros _. rewrite Z2Nat.id by lia. lia.
+    + rewrite walk_nil_neg by lia. reflexivity.
+Qed.
+
+(* ------------------------------------------------------------------ *)
+(* slice projections with an explicit step                             *)
+(* ------------------------------------------------------------------ *)
+
+(* what the operand of a stepped slice must be for the model to agree with the
+   reference: an array no longer than a Go slice can be, or a valid UTF-8 string
+   (on invalid UTF-8 the two differ, see slice_step_invalid_utf8_differs) *)
+Definition step_sliceable (x : value) : Prop :=
+  match x with
+  | VArr l => zlen l <= MaxInt
+  | VStr t => bytes_ok t = true /\ valid_utf8 t = true /\ rune_count t <= MaxInt
+  | _ => True
+  end.
+
+Section StepSlice.
+Variable root : value.
+
+Lemma slice_step_project_spec r x a b s vars :
+  refines root r -> in_int s = true -> s <> 0 -> step_sliceable x ->
+  (do y <- slice_step x a b s;
+   match y with
+   | VStr _ => eval root r y vars
+   | _ => project_array (fun v => eval root r v vars) y
+   end) =
+  match x with
+  | VArr l =>
+    do ps <- proj_list (fun v => ref_eval root (unfuse r) v vars)
+                       (spec_slice l VNull (Some a) (Some b) s);
+    Ok (VArr ps)
+  | VStr t => ref_eval root (unfuse r) (VStr (concat (spec_slice (chunks t) [] (Some a) (Some b) s))) vars
+  | _ => Ok VNull
+  end.
+Proof.
+  intros Hr Hs Hnz Hx. destruct x; try reflexivity.
+  - destruct Hx as (Hb & Hv & HL). rewrite slice_step_str by assumption. cbn [bind]. apply Hr.
+  - cbn [step_sliceable] in Hx. rewrite slice_step_arr by assumption. cbn [bind].
+    apply (project_array_spec root r (VArr _) vars Hr).
+Qed.
+
+Lemma ref_step_slice l r a b s cur vars : s <> 0 ->
+  ref_eval root (RProj (PSlice (sl a) (sl b) (Some s)) l r) cur vars =
+  do v <- ref_eval root l cur vars;
+  match v with
+  | VArr x =>
+    do ps <- proj_list (fun v => ref_eval root r v vars) (spec_slice x VNull (Some a) (Some b) s);
+    Ok (VArr ps)
+  | VStr t => ref_eval root r (VStr (concat (spec_slice (chunks t) [] (Some a) (Some b) s))) vars
+  | _ => Ok VNull
+  end.
+Proof. intros H. destruct s; [congruence| |]; reflexivity. Qed.
+
+Theorem eval_refines_slice_step : forall (c : node) (a b s : Z) (r : node) (cur : value) (vars : env),
+  wf_node (NProjectArray (NSliceStep c a b s) r) = true ->
+  eval root c cur vars = ref_eval root (unfuse c) cur vars ->
+  (forall v vars', eval root r v vars' = ref_eval root (unfuse r) v vars') ->
+  (forall x, eval root c cur vars = Ok x -> step_sliceable x) ->
+  eval root (NProjectArray (NSliceStep c a b s) r) cur vars =
+  ref_eval root (unfuse (NProjectArray (NSliceStep c a b s) r)) cur vars.
+Proof.
+  intros c a b s r cur vars Hwf Hc Hr Hx.
+  cbn [wf_node] in Hwf.
+  repeat match goal with H : _ && _ = true |- _ => apply andb_prop in H; destruct H end.
+  assert (Hnz : s <> 0).
+  { match goal with H : negb (s =? 0) = true |- _ => apply negb_true_iff, Z.eqb_neq in H; exact H end. }
+  cbn [unfuse]. rewrite ref_step_slice by assumption.
+  cbn [eval is_slice_node]. rewrite <- Hc.
+  destruct (eval root c cur vars) as [x| | | |] eqn:E; cbn [bind]; try reflexivity.
+  apply slice_step_project_spec; auto.
+Qed.
+
+Theorem eval_refines_slice_step_current : forall (a b s : Z) (r : node) (cur : value) (vars : env),
+  wf_node (NProjectArray (NSliceStepCurrent a b s) r) = true ->
+  (forall v vars', eval root r v vars' = ref_eval root (unfuse r) v vars') ->
+  step_sliceable cur ->
+  eval root (NProjectArray (NSliceStepCurrent a b s) r) cur vars =
+  ref_eval root (unfuse (NProjectArray (NSliceStepCurrent a b s) r)) cur vars.
+Proof.
+  intros a b s r cur vars Hwf Hr Hx.
+  cbn [wf_node] in Hwf.
+  repeat match goal with H : _ && _ = true |- _ => apply andb_prop in H; destruct H end.
+  assert (Hnz : s <> 0).
+  { match goal with H : negb (s =? 0) = true |- _ => apply negb_true_iff, Z.eqb_neq in H; exact H end. }
+  cbn [unfuse]. rewrite ref_step_slice by assumption.
+  cbn [eval is_slice_node ref_eval bind].
+  apply slice_step_project_spec; auto.
+Qed.
+
+End StepSlice.
+
+(* ------------------------------------------------------------------ *)
+(* where the model and the reference differ                            *)
+(* ------------------------------------------------------------------ *)
+
+(* [::2] on the one-byte string "\xff" (not valid UTF-8; it cannot come out of
+   encoding/json, but it is a Go string): the stepped slice goes through runes and
+   re-encodes U+FFFD, the reference (and the model's own step-1 slice) keeps the byte *)
+Lemma slice_step_invalid_utf8_differs :
+  let n := NProjectArray (NSliceStepCurrent 0 MaxInt 2) NCurrent in
+  wf_node n = true /\
+  eval VNull n (VStr [255]) [] = Ok (VStr [239; 191; 189]) /\
+  ref_eval VNull (unfuse n) (VStr [255]) [] = Ok (VStr [255]).
+Proof. repeat split; vm_compute; reflexivity. Qed.
+
+Print Assumptions eval_refines_slice1.
+Print Assumptions eval_refines_slice_step.
+Print Assumptions eval_refines_slice_step_current.
+Print Assumptions eval_refines_variadic.
+Print Assumptions eval_refines_variadic_ok.
+Print Assumptions eval_refines.
